@@ -353,8 +353,14 @@ Definition check_settle := failing settle_check.
      73 prevote accepted with a wrong round id or after the prevote window
      74 vote accepted with a wrong round id, or not opening the validator's latest unopened prevote of this round
      90 a registered crisis invariant is broken                  91 credited total <> validators' credits + community pool credit
-     92 credits of an end-block are not a whole number of coins (the module account cannot cover them) *)
+     92 credits of an end-block are not a whole number of coins (the module account cannot cover them)
+     75 prevote / vote accepted from an account that is neither the validator's operator nor the feeder named by the
+      validator's latest accepted consent (C03) *)
 Record otrack := mkOT { ot_prevotes : list (Z * bytes); ot_votes : list (Z * votedata) }.
+
+(* the feeder a validator currently consents to, from the accepted consent messages alone *)
+Definition dtrack_ok (d : list (Z * Z)) (feeder val : Z) : bool :=
+  (feeder =? val) || match zlookup val d with Some f => feeder =? f | None => false end.
 
 Definition otrack_tx (h p : Z) (ot : otrack) (m : omsg) : otrack * list Z :=
   match m with
@@ -447,6 +453,19 @@ Fixpoint oracle_walk (pr : oparams) (k : Z) (h : Z) (ot : otrack) (prev : snap) 
       end
   | _, _ => []
   end.
+
+Fixpoint deleg_walk (k : Z) (d : list (Z * Z)) (es : list event) (os : list iobs) : list (Z * Z) :=
+  match es, os with
+  | e :: es', o :: os' =>
+      match e, o with
+      | EvOTx (MConsent val feeder), ITx COk _ => deleg_walk (k + 1) (zinsert val feeder d) es' os'
+      | EvOTx (MPrevote feeder val _ _), ITx COk _ | EvOTx (MVote feeder val _ _ _), ITx COk _ =>
+          (if dtrack_ok d feeder val then [] else [(k, 75)]) ++ deleg_walk (k + 1) d es' os'
+      | _, _ => deleg_walk (k + 1) d es' os'
+      end
+  | _, _ => []
+  end.
+Definition check_C03_chain := failing (fun c => deleg_walk 0 (o_deleg (c_o (cs_init c))) (cs_events c) (cs_obs c)).
 
 Definition oracle_check (c : case) : list (Z * Z) :=
   oracle_walk (o_params (c_o (cs_init c))) 0 (c_h (cs_init c)) (mkOT [] []) (snap_of_init (cs_init c)) [] []
